@@ -129,6 +129,8 @@ def evaluate(case, out):
                 # margin from the tally over the same cards
                 if pop:
                     try:
+                        if len(cvrs) % 2 == 0:  # a first tally of a preliminary export, then the real one
+                            Contest.tally(contests, cvrs[: len(cvrs) // 2 + 1], enforce_rules=False)
                         Contest.tally(contests, cvrs, enforce_rules=False)
                         con.cards = len(pop)
                         a.find_margin_from_tally()
@@ -168,6 +170,8 @@ def evaluate(case, out):
                 else:
                     out.expect(bool(mean > 0.5) == (W * q > p * V), "super-mean-vs-share", lambda: (use_style, mean, W, V, case["f"]))
                 try:
+                    if len(cvrs) % 2 == 0:
+                        Contest.tally(contests, cvrs[: len(cvrs) // 2 + 1], enforce_rules=True)
                     Contest.tally(contests, cvrs, enforce_rules=True)
                     con.cards = len(pop)
                     a.find_margin_from_tally()
